@@ -1947,7 +1947,8 @@ class UWG(object):
             # Material should be at least 1cm thick, so if we're here,
             # should give warning and stop. Only warning given for now.
             elif materials.layer_thickness_lst[0] < min_thickness * 2:
-                newthickness = [min_thickness / 2., min_thickness / 2.]
+                newthickness = [materials.layer_thickness_lst[0] / 2.,
+                                materials.layer_thickness_lst[0] / 2.]
                 newmat = [Material(k[0], Vhc[0], name=materials.name),
                           Material(k[0], Vhc[0], name=materials.name)]
                 print('WARNING: Material layer less then 2 cm is found.'
